@@ -940,10 +940,19 @@ func (tc *typechecker) binaryOp(expr1 ast.Expression, op ast.OperatorType, expr2
 			}
 		}
 
+		// The operator must be defined on the type of the operands, regardless
+		// of how the values of the constants are represented.
+		if !isShift && !isStringContains && !t1.Untyped() {
+			if k := t1.Type.Kind(); int(k) < len(operatorsOfKind) && !operatorsOfKind[k][op] {
+				return nil, fmt.Errorf("operator %s not defined on %s", op, t1.ShortString())
+			}
+		}
+
 		c, err := t1.Constant.binaryOp(op, t2.Constant)
 		if err != nil {
 			switch err {
 			case errInvalidOperation:
+
 				if op == ast.OperatorModulo && isUntyped {
 					if isComplex(t1.Type.Kind()) {
 						err = fmt.Errorf("operator %% not defined on untyped complex")
